@@ -1,0 +1,15 @@
+//go:build verif
+
+package client
+
+import "github.com/avos-io/goat/verifhook"
+
+func vEmit(ev string, obj any, id uint64, n int, s string) { verifhook.Emit(ev, obj, id, n, s) }
+func vGate(name string, obj any, id uint64)                { verifhook.Gate(name, obj, id) }
+
+// VerifRegistrySize reports the number of registered response channels.
+func (rm *RpcMultiplexer) VerifRegistrySize() int {
+	rm.mutex.Lock()
+	defer rm.mutex.Unlock()
+	return len(rm.handlers)
+}
